@@ -81,17 +81,34 @@ def preload():
                     names=('Q',), type='modification')
     mods['Q'] = q_from
 
+    # W spans two residues: it anchors on B of one residue and on A of the next (the two are bonded) and adds one atom bonded to both;
+    # on the coarse side both anchors are particles called X1
+    w_from = Link(force_field=ff_aa, name='W')
+    w_from.add_node('B', atomname='B', PTM_atom=False)
+    w_from.add_node('A', atomname='A', PTM_atom=False)
+    w_from.add_node('W', atomname='W', PTM_atom=True)
+    w_from.add_edges_from([('B', 'W'), ('W', 'A'), ('B', 'A')])
+    w_to = Link(force_field=ff_cg, name='W')
+    w_to.add_node('X1a', atomname='X1', PTM_atom=False)
+    w_to.add_node('X1b', atomname='X1', PTM_atom=False)
+    w_to.add_node('WB', atomname='WB', PTM_atom=True)
+    w_to.add_edges_from([('X1a', 'WB'), ('X1b', 'WB'), ('X1a', 'X1b')])
+    w_to.add_interaction('bonds', ['X1a', 'WB'], ['1', '0.5', '250'])
+    map_w = Mapping(w_from, w_to, {'B': {'X1a': 1}, 'A': {'X1b': 1}, 'W': {'WB': 1}}, {}, ff_from=ff_aa, ff_to=ff_cg,
+                    names=('W',), type='modification')
+    mods['W'] = w_from
+
     r_from = Link(force_field=ff_aa, name='R')
     r_from.add_node('B', atomname='B', PTM_atom=False)
     r_from.add_node('R', atomname='R', PTM_atom=True)
     r_from.add_edge('B', 'R')
     mods['R'] = r_from
     _STATE.update(ff_aa=ff_aa, ff_cg=ff_cg, mods=mods,
-                  mappings={'c01mod_aa': {'c01mod_cg': {('X',): map_x, ('Z',): map_z, ('P',): map_p, ('Q',): map_q}}})
+                  mappings={'c01mod_aa': {'c01mod_cg': {('X',): map_x, ('Z',): map_z, ('P',): map_p, ('Q',): map_q, ('W',): map_w}}})
 
 
 def _strategy(tier):
-    residue = st.sampled_from([[], [], [], [], ['P'], ['P'], ['P'], ['Q'], ['Q'], ['P', 'Q'], ['R'], ['Q', 'P']])
+    residue = st.sampled_from([[], [], [], [], ['P'], ['P'], ['P'], ['Q'], ['Q'], ['P', 'Q'], ['R'], ['Q', 'P'], ['W'], ['W', 'P']])
     return st.fixed_dictionaries({
         'residues': st.lists(residue, min_size=1, max_size=8),
         'key0': st.sampled_from([0, 1, 10]), 'keystep': st.sampled_from([1, 1, 3]),
@@ -116,11 +133,17 @@ def _build(case):
     z_at = case.get('z_at')
     if z_at is not None:
         z_at = z_at % len(case['residues'])
+    carried = []
+    bridges = []
+    nres = len(case['residues'])
     for ridx, names in enumerate(case['residues']):
         is_z = ridx == z_at
         if is_z:
             names = []
-        attached = [mods[n] for n in names]
+        if 'W' in names and (ridx + 1 >= nres or ridx + 1 == z_at):
+            names = [n for n in names if n != 'W']      # the bridge needs a following residue of kind X
+        attached = [mods[n] for n in names] + [mods[n] for n in carried if n not in names]
+        carried_here, carried = list(carried), (['W'] if 'W' in names else [])
         common = dict(resname='Z' if is_z else 'X', resid=case['resid0'] + ridx, chain='A')
         extra = {'modifications': list(attached)} if attached else {}
         a_key, b_key = key, key + case['keystep']
@@ -138,9 +161,11 @@ def _build(case):
             mol.add_edge(prev_b, a_key)
         prev_b = b_key
         key = b_key + case['keystep']
-        entry = {'A': a_key, 'B': b_key, 'mods': list(names), 'ptm': {}, 'z': is_z}
+        entry = {'A': a_key, 'B': b_key, 'mods': list(names), 'ptm': {}, 'z': is_z, 'carried': carried_here}
+        if 'W' in carried_here:
+            bridges.append((layout[-1], a_key))
         for name in names:
-            chain = {'P': [('P', 'B')], 'Q': [('Q1', 'A'), ('Q2', 'Q1')], 'R': [('R', 'B')]}[name]
+            chain = {'P': [('P', 'B')], 'Q': [('Q1', 'A'), ('Q2', 'Q1')], 'R': [('R', 'B')], 'W': [('W', 'B')]}[name]
             atoms = [(atom, parent, common, extra) for atom, parent in chain]
             if case['ptm_last']:
                 pending.append((entry, atoms))
@@ -157,6 +182,9 @@ def _build(case):
             mol.add_edge(entry['ptm'].get(parent, entry.get(parent)), key)
             entry['ptm'][atom] = key
             key += case['keystep']
+    for owner, a_next in bridges:
+        mol.add_edge(owner['ptm']['W'], a_next)
+        owner['bridge_to'] = a_next
     xlink = None
     if case.get('xlink') and not any('R' in e['mods'] for e in layout):
         ends = [(ridx, name, e['ptm'][atom]) for ridx, e in enumerate(layout) for name, atom in (('P', 'P'), ('Q', 'Q2'))
@@ -189,7 +217,15 @@ def _run(case):
     types = [getattr(r, 'type', None) for r in records]
     has_r = any('R' in e['mods'] for e in layout)
     label = 'modifications per residue %r' % ([e['mods'] for e in layout],)
-    if 'inconsistent-data' in types:
+    # two modification placements that anchor on the same atom overlap there (W and P on B of one residue, W and the Q of the
+    # following residue on its A): the statement asks for an inconsistent-data warning then, and for none otherwise
+    shared_anchor = any('W' in e['mods'] and ('P' in e['mods'] or (i + 1 < len(layout) and 'Q' in layout[i + 1]['mods']))
+                        for i, e in enumerate(layout))
+    if shared_anchor and 'inconsistent-data' not in types and not any(
+            'R' in e['mods'] for e in layout):
+        raise Violation('mod-overlap-silent', '%s: two modification placements anchor on the same atom and no inconsistent-data '
+                        'warning was raised' % label)
+    if 'inconsistent-data' in types and not shared_anchor:
         raise Violation('mod-spurious-overlap-warning', '%s: inconsistent-data warning although no two placements overlap: %s' % (
             label, [r.getMessage()[:120] for r in records if getattr(r, 'type', None) == 'inconsistent-data'][:2]))
     if has_r and 'unmapped-atom' not in types:
@@ -201,12 +237,12 @@ def _run(case):
     # that contains an R (no mapping) is reported as a whole and none of its modifications is placed.  The statement does not
     # settle what becomes of the mapped modifications of such a group, so those cases are judged on their warnings only.
     group = []
-    for entry in layout + [{'mods': []}]:
-        if entry['mods']:
+    for entry in layout + [{'mods': [], 'carried': []}]:
+        if entry['mods'] or entry.get('carried'):
             group.append(entry)
             continue
         names = {n for e in group for n in e['mods']}
-        if 'R' in names and names & {'P', 'Q'}:
+        if 'R' in names and names & {'P', 'Q', 'W'}:
             return Outcome(['group-with-and-without-mapping-not-judged'], False)
         group = []
     # who records which atom
@@ -219,7 +255,7 @@ def _run(case):
         by_name.setdefault(out.nodes[idx].get('atomname'), []).append(idx)
     n_z = sum(1 for e in layout if e.get('z'))
     want_counts = {'X1': len(layout) - n_z, 'Z1': n_z, 'PB': sum('P' in e['mods'] for e in layout),
-                   'QA': sum('Q' in e['mods'] for e in layout)}
+                   'QA': sum('Q' in e['mods'] for e in layout), 'WB': sum('W' in e['mods'] for e in layout)}
     got_counts = {name: len(by_name.get(name, [])) for name in want_counts}
     other = sorted(str(n) for n in by_name if n not in want_counts)
     if got_counts != want_counts or other:
@@ -247,7 +283,8 @@ def _run(case):
     for ridx, entry in enumerate(layout):
         if ridx:
             want_edges.add(frozenset((x1_of[ridx - 1], x1_of[ridx])))
-        for name, pname, weights, params in (('P', 'PB', {'P': 1}, ['1', '0.3', '1000']), ('Q', 'QA', {'Q1': 1, 'Q2': 2}, ['1', '0.4', '500'])):
+        for name, pname, weights, params in (('P', 'PB', {'P': 1}, ['1', '0.3', '1000']), ('Q', 'QA', {'Q1': 1, 'Q2': 2}, ['1', '0.4', '500']),
+                                             ('W', 'WB', {'W': 1}, ['1', '0.5', '250'])):
             if name not in entry['mods']:
                 continue
             first = sorted(weights)[0]
@@ -265,6 +302,8 @@ def _run(case):
                 raise Violation('mod-weights', '%s: %s of residue %d records %r, expected %r' % (label, pname, ridx, got, want))
             want_edges.add(frozenset((x1_of[ridx], particle)))
             want_bonds.append((frozenset((x1_of[ridx], particle)), params))
+            if name == 'W':
+                want_edges.add(frozenset((x1_of[ridx + 1], particle)))
         if 'R' in entry['mods'] and holders.get(entry['ptm']['R']):
             raise Violation('mod-unmapped-recorded', '%s: atom R of residue %d (no mapping) is recorded by %r' % (
                 label, ridx, holders[entry['ptm']['R']]))
@@ -304,6 +343,10 @@ def _run(case):
         classes.append('neighbouring-modified-residues')
     if xlink:
         classes.append('bond-between-two-modification-placements')
+    if any('W' in e['mods'] for e in layout):
+        classes.append('modification-spanning-two-residues')
+    if shared_anchor:
+        classes.append('two-modifications-share-an-anchor-atom')
     if n_z and case.get('z_renamed'):
         classes.append('block-fits-through-_old_atomname-only')
     return Outcome(classes, apart)
